@@ -150,6 +150,9 @@ func (p *Program) computeFacts(fn *ssa.Function) *funcFacts {
 					for _, g := range p.phiImplied(ff, top, f, 0) {
 						cand[g.key] = g
 					}
+					for _, g := range p.phiNilImplied(ff, top, f) {
+						cand[g.key] = g
+					}
 				}
 				if first {
 					in = cand
@@ -231,6 +234,9 @@ func (p *Program) FactsOnEdgeX(from, to *ssa.BasicBlock) []Fact {
 	for _, f := range p.edgeFacts(from, to) {
 		fs[f.key] = f
 		for _, g := range p.phiImplied(ff, map[*ssa.BasicBlock]bool{}, f, 0) {
+			fs[g.key] = g
+		}
+		for _, g := range p.phiNilImplied(ff, map[*ssa.BasicBlock]bool{}, f) {
 			fs[g.key] = g
 		}
 	}
@@ -933,4 +939,74 @@ func (p *Program) importedFacts(fn *ssa.Function) factSet {
 		}
 	}
 	return out
+}
+
+// definitelyNonNil: values that are never nil (freshly built errors / allocations).
+func definitelyNonNil(v ssa.Value) bool {
+	v = stripConv(v)
+	switch x := v.(type) {
+	case *ssa.Alloc:
+		return true
+	case *ssa.Call:
+		switch calleeID(x.Common()) {
+		case "fmt.Errorf", "errors.New":
+			return true
+		}
+	}
+	return false
+}
+
+// phiNilImplied: facts implied by a nil test of a Phi (typically the error result of an inlined
+// helper: phi(Errorf(...), Errorf(...), nil)). If the phi is nil, control came through an edge
+// whose value can be nil; if it is non-nil, through an edge whose value is not the nil constant.
+// The implied facts are those common to the remaining edges.
+func (p *Program) phiNilImplied(ff *funcFacts, top map[*ssa.BasicBlock]bool, f Fact) []Fact {
+	x, trueMeansNonNil, ok := errNilTest(f.Cond)
+	if !ok {
+		return nil
+	}
+	ph, isPhi := stripConv(x).(*ssa.Phi)
+	if !isPhi {
+		return nil
+	}
+	isNil := f.Pol != trueMeansNonNil
+	blk := ph.Block()
+	var common factSet
+	first := true
+	for i, e := range ph.Edges {
+		if i >= len(blk.Preds) {
+			return nil
+		}
+		if isNil && definitelyNonNil(e) {
+			continue
+		}
+		if !isNil && isNilConst(stripConv(e)) {
+			continue
+		}
+		pr := blk.Preds[i]
+		if top[pr] {
+			continue
+		}
+		cand := factSet{}
+		for k, g := range ff.out[pr] {
+			cand[k] = g
+		}
+		for _, g := range p.edgeFacts(pr, blk) {
+			cand[g.key] = g
+		}
+		if first {
+			common = cand
+			first = false
+		} else {
+			for k := range common {
+				if _, ok := cand[k]; !ok {
+					delete(common, k)
+				}
+			}
+		}
+	}
+	if first {
+		return nil
+	}
+	return common.list()
 }
